@@ -31,6 +31,7 @@ ASSUMPTIONS.update({
     "Position": "opaque stand-in", "clone": "Position::clone",
     "MessagePart": "opaque (message text irrelevant)",
     "vs_strip_first_ascii": "`&s[1..]` when the first char is ASCII (one byte): the text without its first char",
+    "vs_strip_both_ascii": "`&s[1..s.len() - 1]` panics unless the text has at least two bytes; with ASCII first and last chars it is the text without them",
     "vs_strip_last_ascii": "`&s[..s.len() - 1]` when the last char is ASCII: the text without its last char",
     "vs_ends_with_char_seq": "str::ends_with(char): the last char equals it",
     "vs_byte_len": "str::len (only used as a capacity hint)",
@@ -64,6 +65,11 @@ pub fn vs_strip_last_ascii<'a>(s: &'a str) -> (r: &'a str)
     ensures r@ == s@.drop_last(),
 { &s[..s.len() - 1] }
 #[verifier::external_body]
+pub fn vs_strip_both_ascii<'a>(s: &'a str) -> (r: &'a str)
+    requires s@.len() >= 2, is_ascii_char(s@[0]), is_ascii_char(s@.last()),
+    ensures r@ == s@.subrange(1, s@.len() - 1),
+{ &s[1..s.len() - 1] }
+#[verifier::external_body]
 pub fn vs_ends_with_char_seq(s: &str, c: char) -> (r: bool)
     ensures r == (s@.len() >= 1 && s@.last() == c),
 { s.ends_with(c) }
@@ -80,6 +86,11 @@ pub fn vs_chars_vec(s: &str) -> (r: Vec<char>)
 """
 
 WITNESSES = [
+    {"match": r"unescape_string_any_token|strlit\.undecided", "kind": "check", "props": ["C01"],
+     "input": "let title = \"\n", "expect": {"stdout_contains": "Unclosed string literal"},
+     "note": "a lone opening doublequote is an unclosed string literal, reported as a diagnostic"},
+    {"match": r"unescape_string_any_token|strlit\.undecided", "kind": "check", "props": ["C01"],
+     "input": "let title = \"", "expect": {}},
     {"match": r"lemma_token_boundary|escape_string_literal|unescape_string|lemma_round_trip", "kind": "run", "props": ["C12"],
      "input": "let s = \"a\\\\\"\nprintln(string_repr(s))\nprintln(s)",
      "expect": {"stdout": "\"a\\\\\"\na\\"}, "note": "a string ending in a backslash prints as \"a\\\\\" and that text must lex as one string token"},
@@ -123,6 +134,7 @@ def build(tier):
                     text="proof { assert(s@.take(s@.len() as int) =~= s@); }")],
         props=c12))
     UNESC_RULES = [
+        rw.simple("R1", r"&(\w+)\[1\.\.(\w+)\.len\(\) - 1\]", r"vs_strip_both_ascii(\1)"),
         rw.simple("R1", r"&(\w+)\[1\.\.\]", r"vs_strip_first_ascii(\1)"),
         rw.simple("R1", r"&(\w+)\[\.\.(\w+)\.len\(\) - 1\]", r"vs_strip_last_ascii(\1)"),
         rw.simple("R2", r"\b(\w+)\.ends_with\(('(?:\\.|[^'])')\)", r"vs_ends_with_char_seq(\1, \2)"),
@@ -144,6 +156,12 @@ def build(tier):
                dict(anchor="while i < chars.len()", where="before",
                     text="proof { assert(token.text@.drop_first().drop_last() =~= token.text@.subrange(1, token.text@.len() - 1)); assert(chars@.skip(0) =~= chars@); }")],
         props=c12))
+    # C01: the same function must not panic on ANY string token the lexer can produce: STRING_RE
+    # only guarantees that the token starts with a double quote (it may be unclosed, even 1 byte long)
+    u.add_fn(PAR, "unescape_string", rename="unescape_string_any_token", rules=UNESC_RULES, contract=Contract(
+        requires=[("token_starts_with_quote", "token.text@.len() >= 1, token.text@[0] == '\"'")],
+        loops={1: dict(invariant=[("idx", "i <= chars@.len()")], decreases="chars@.len() - i")},
+        props={"C01"}))
     u.add_canary_proof()
     u.raw(common.FOOTER)
     return u
